@@ -160,12 +160,15 @@ _MOD = None
 
 
 def _work(args):
-    pid, tier, base_seed, start, stop, want_samples = args
+    pid, tier, base_seed, start, stop, want_samples = args[:6]
+    deadline = args[6] if len(args) > 6 else None
     mod = _MOD if _MOD is not None and _MOD.ID == pid else load_prop(pid)
     out = {'n': 0, 'digests': set(), 'stats': collections.Counter(), 'simtime': 0.0, 'steps': 0,
            'viol': [], 'samples': [], 'error': None, 'interleavings': set(), 'trivial': 0}
     try:
         for i in range(start, stop):
+            if deadline is not None and out['n'] > 0 and time.time() > deadline:
+                break                            # the batch's budget is used up: the rest of this chunk is not run
             case = gen_case(mod, base_seed, tier, i)
             if want_samples and len(out['samples']) < want_samples:
                 case['_excerpt'] = True          # evidence samples carry the tail of their recorded history
@@ -504,7 +507,7 @@ def run_check(pid, tier, base_seed, runs=None, budget=None, jobs=None):
                     return
                 s = starts[nxt]
                 pending.add(ex.submit(_work, (pid, tier, base_seed, s, min(total, s + chunk),
-                                              3 if nxt == 0 else 0)))
+                                              3 if nxt == 0 else 0, t0 + cfg['budget_s'])))
                 nxt += 1
         submit()
         hard_deadline = t0 + cfg['budget_s'] * 3 + 120
